@@ -34,14 +34,15 @@ enum ProbeId { P_item_by_file, P_item_by_env, P_item_by_argv, P_all_three_source
                P_word_needed_quoting, P_style_backslash, P_style_single, P_style_double, P_style_mixed,
                P_comment_or_empty_line, P_multi_value_in_file_line, P_override_file_argv, P_override_env_argv,
                P_read_returned_one_byte, P_file_via_flag, P_file_via_argument, P_env_default_name, P_env_named,
-               P_several_items_on_one_line, P_file_line_evaluated, P_nested_argument_file, P_env_names_argument_file, P_value_list_continued };
+               P_several_items_on_one_line, P_file_line_evaluated, P_nested_argument_file, P_env_names_argument_file, P_value_list_continued,
+               P_whole_line_as_string };
 const char* const kProbeNames[] = { "item_delivered_by_file", "item_delivered_by_env", "item_delivered_by_argv",
                "all_three_sources_in_one_run", "both_runs_returned", "both_runs_threw", "word_needed_quoting",
                "style_backslash", "style_single_quotes", "style_double_quotes", "style_mixed", "comment_or_empty_line_skipped",
                "multi_value_words_in_file_line", "override_file_then_argv", "override_env_then_argv", "read_returned_one_byte",
                "file_via_program_name_flag", "file_via_argument", "env_default_name", "env_named", "several_items_on_one_line",
                "file_line_evaluated", "argument_file_includes_another_file", "environment_variable_names_argument_file",
-               "value_list_continued_on_next_line_or_source" };
+               "value_list_continued_on_next_line_or_source", "whole_line_through_evalArgumentString" };
 
 std::string upper( std::string s)
 {
@@ -89,6 +90,14 @@ public:
       plan[ "file_via"] = fvia[ cfg.below( 4)];
       plan[ "env_via"] = evia[ cfg.below( 3)];
       plan[ "noabbr"] = cfg.chance( 1, 5);
+      // fourth way of delivery: the whole line as one string through
+      // evalArgumentString() (same splitter, no file, no environment)
+      if (cfg.chance( 1, 7))
+      {
+         plan[ "via_string"] = true;
+         plan[ "file_via"] = "none";
+         plan[ "env_via"] = "none";
+      }
       // an argument file may include another one; the environment variable may name the argument file
       if (plan.gets( "file_via") != "none" && cfg.chance( 1, 3))
       {
@@ -263,7 +272,7 @@ public:
       std::vector< std::string>                wf, we, wa;             // raw words per source, in order
       std::vector< std::vector< std::string>>  file_lines_words;       // words per file line
       std::vector< std::vector< unsigned>>     file_lines_styles;
-      std::vector< unsigned>                   env_styles;
+      std::vector< unsigned>                   env_styles, argv_styles;
       long long                                last_line = -1;
       bool                                     multi_in_line = false, several_on_line = false;
       for (size_t k = 0; k < items.size(); ++k)
@@ -279,7 +288,7 @@ public:
             if (word.empty()) { res.fail( "BADPLAN", "plan", "empty word"); return res; }
             if (src == "f") wf.push_back( word);
             else if (src == "e") { we.push_back( word); env_styles.push_back( style); }
-            else wa.push_back( word);
+            else { wa.push_back( word); argv_styles.push_back( style); }
          }
          if (words.at( 0).s()[ 0] != '-' && !it.geti( "once", 0) && k > 0) st.probe( P_value_list_continued);
          if (src == "f")
@@ -470,6 +479,20 @@ public:
       if (file_via == "arg" && !env_names_file) { ycfg.argv.push_back( "--arg-file"); ycfg.argv.push_back( arg_file_path); }
       for (auto const& w : wa) ycfg.argv.push_back( w);
       for (auto const& w : ov_second) ycfg.argv.push_back( w);
+      const bool  via_string = plan.geti( "via_string", 0) != 0 && file_via == "none" && env_via == "none" && !wa.empty();
+      std::string  arg_string;
+      if (via_string)
+      {
+         for (size_t w = 0; w < wa.size(); ++w)
+         {
+            if (w) arg_string += (argv_styles[ w] & 1) ? "  " : " ";
+            if (needsQuoting( wa[ w])) { st.probe( P_word_needed_quoting); styleProbe( argv_styles[ w]); }
+            arg_string += recipes::quoteWord( wa[ w], argv_styles[ w], false);
+         }
+         ycfg.use_arg_string = true;
+         ycfg.arg_string = arg_string;
+         st.probe( P_whole_line_as_string);
+      }
 
       recipes::EvalOut  y, x;
       fs::opBegin( faults);
@@ -529,6 +552,7 @@ public:
 
       log( "file[" + file_via + "]: " + file_text);
       log( "env[" + env_via + "] " + env_name + "=" + env_text);
+      if (via_string) log( "string: " + arg_string);
       std::string  xa, ya;
       for (auto const& w : xcfg.argv) xa += "[" + w + "]";
       for (auto const& w : ycfg.argv) ya += "[" + w + "]";
@@ -549,11 +573,11 @@ public:
       }
       else if (x.threw != y.threw)
          res.fail( "VIOLATION", "D1-outcome", std::string( "words on argv ") + (x.threw ? "are rejected (" + x.what + ")" : "are accepted")
-            + " but the same words through " + (wf.empty() ? "" : "file ") + (we.empty() ? "" : "environment ") + "are "
+            + " but the same words through " + (wf.empty() ? "" : "file ") + (we.empty() ? "" : "environment ") + (via_string ? "evalArgumentString( '" + arg_string + "') " : "") + "are "
             + (y.threw ? "rejected (" + y.what + ")" : "accepted") + "; file: '" + file_text + "' env: '" + env_text + "'");
       else if (!x.threw && x.snapshot != y.snapshot)
          res.fail( "VIOLATION", ov_active ? "D2-override-value" : "D2-destination-values", "destination values differ; argv: " + x.snapshot
-            + " sources: " + y.snapshot + "; file: '" + file_text + "' env: '" + env_text + "'");
+            + " sources: " + y.snapshot + "; file: '" + file_text + "' env: '" + env_text + "'" + (via_string ? " string: '" + arg_string + "'" : ""));
       if (x.threw && y.threw) st.probe( P_both_threw);
       if (!x.threw && !y.threw) st.probe( P_both_returned);
 
@@ -561,7 +585,7 @@ public:
       fs::closeLeaked();
       th.add( fs::eventHash());
       res.hash = th.value();
-      res.nontrivial = !wf.empty() || !we.empty() || ov_active;
+      res.nontrivial = !wf.empty() || !we.empty() || ov_active || via_string;
       return res;
    }
 
